@@ -225,7 +225,8 @@ def gen_case(seed, tier):
             'else': r.random() < 0.5}
     big = r.random() < 0.15      # swarm: windows far into the stream
     case['extras'] = sorted(x for x in ('number', 'letter', 'even', 'var',
-                                        'first', 'last', 'prevbatches')
+                                        'first', 'last', 'prevbatches',
+                                        'nextvar')
                             if r.random() < 0.2)
     if batched:
         def val(lo, hi):
@@ -337,6 +338,11 @@ def source_of(case):
                 ex.append('<dtml-var sequence-var-v>')
             elif kind != 'str' and x in ('first', 'last'):
                 ex.append('<dtml-if %s-v>%s</dtml-if>' % (x, x[0]))
+            elif x == 'nextvar' and case['batched']:
+                # a "next page" link prepared at the first item
+                ex.append('<dtml-if sequence-start><dtml-var '
+                          'next-sequence-start-index missing="-">/<dtml-var '
+                          'next-sequence-size missing="-"></dtml-if>')
             elif x == 'prevbatches' and case['batched'] and \
                     P.get('overlap', 0) < bound_of(case, 0)[1]:
                 # (overlap >= size makes previous-batches loop for ever
